@@ -19,7 +19,7 @@ RULE = ("Hypothesis: arbitrary relative message lists (<= 24 messages) over 2 ch
 ASSUMPTIONS = ["which velocity a fused note keeps is not part of the statement",
                "non-note, non-signature events are not generated (their treatment is not part of the statement)"]
 TIERS = {"quick": dict(shards=8, examples=2500, alt_ppqn=[480], alt_shards=2),
-         "thorough": dict(size=2, shards=16, examples=30000, alt_ppqn=[480, 7, 1000], alt_shards=4)}
+         "thorough": dict(fuzz_runs=20000, fuzz_shards=4, size=2, shards=16, examples=30000, alt_ppqn=[480, 7, 1000], alt_shards=2)}
 
 PITCHES = [0, 1, 60, 61]
 
